@@ -35,8 +35,7 @@ M.contract('xtuml.meta._is_null', [('instance', INST), ('name', STR)], returns=V
                     'bool(result) == is_null_value(instance.__metaclass__, name, raw_value(instance, name))'},
            modifies=[],
            loops={0: Loop(inv={'no-earlier-declared-spelling': 'all(not same_name(_seq[i][0], old(name)) for i in range(0, _i))',
-                               'iterates': '_seq == instance.__metaclass__.attributes', 'uname': 'name == upper(old(name))',
-                               'locals': 'metaclass is instance.__metaclass__ and value == raw_value(instance, old(name)) and not value and value is not None'})})
+                               'iterates': '_seq == instance.__metaclass__.attributes'})})
 
 # the value-level null rule used when instances are created through the API (MetaClass.new): same rule as _is_null
 M.contract('xtuml.meta.MetaClass._is_null_value', [('self', MC), ('name', STR), ('value', VAL)], returns=BOOL,
